@@ -292,8 +292,25 @@ fn irq_runtime(req: &Value) -> Value {
            "s": rt.get_reg("S")})
 }
 
+/// Which internal-memory byte does the timer block use as ISR?  (`timer.rs` keeps a private copy of the
+/// offset.)  A main-timer period of one cycle is ticked once on an all-zero `MemoryImage`; the non-zero
+/// internal bytes afterwards are reported.
+fn timer_isr(_req: &Value) -> Value {
+    let mut mem = MemoryImage::new();
+    let mut timer = sc62015_core::TimerContext::new(true, 1, 0);
+    let fired = timer.tick_timers(&mut mem, 16, None);
+    let touched: Vec<Value> = (0u32..0x100)
+        .filter_map(|off| match mem.read_internal_byte_silent(off) {
+            Some(v) if v != 0 => Some(json!([off, v])),
+            _ => None,
+        })
+        .collect();
+    json!({"ok": true, "fired": [fired.0, fired.1], "nonzero": touched})
+}
+
 pub fn handle(verb: &str, req: &Value) -> Value {
     match verb {
+        "timer_isr" => timer_isr(req),
         "dump" => dump(),
         "regscript" => regscript(req),
         "reset_llama" => reset_llama(req),
